@@ -98,7 +98,13 @@ Definition enc_obs (x : out * st) : sx :=
                (servers s));
        SL (map (fun e => SL [SN (fst e); SN (snd e)]) (inflight s)) ].
 
+(* a case (stress SECS CLIENTS OBSERVERS) is a real-thread run of the implementation; what the model has to say
+   about it is Properties/C18Locks.v: it cannot stop serving *)
+Definition is_stress (x : sx) : bool :=
+  match x with SL (t :: _) => is_sym "stress" t | _ => false end.
+
 Definition run_c18 (fx : bool) (x : sx) : sx :=
+  if is_stress x then SL [sym "stress_ok"] else
   match x with
   | SL ms =>
       match dec_msgs ms with
